@@ -225,7 +225,7 @@ fn run_case(seed: u64, idx: u64) -> CaseOut {
                 let h1 = gen_segments(&mut rng, n1);
                 let n2 = rng.range(1, 30) as usize;
                 let h2 = gen_segments(&mut rng, n2);
-                let how = rng.below(3);
+                let how = rng.below(4);
                 let d = Drv::new(Some(1 << 62));
                 let p1 = feed(&d, &h1, 0);
                 d.advance(gap_ms(&mut rng) * MS);
@@ -237,6 +237,11 @@ fn run_case(seed: u64, idx: u64) -> CaseOut {
                     1 => {
                         d.pb.reset();
                         ("reset", 0)
+                    }
+                    // ("Resets elapsed time and the ETA calculation")
+                    3 => {
+                        d.pb.reset_elapsed();
+                        ("reset_elapsed", p1)
                     }
                     _ => {
                         let back = p1 / 2;
@@ -333,7 +338,7 @@ pub fn run(cfg: &RunCfg) -> PropResult {
     };
     PropResult {
         report,
-        rule: "four law families in rotation: (steady) 1-400 updates at an exactly constant rate of 1..9e8 steps/ms with log-uniform / tiny / fixed gaps between 1 ms and 10 days; (bounds+stall) 1-60 segments at rates spread over 12 orders of magnitude, then a stall queried at 9 instants up to 1 h; (forget) H1; reset_eta|reset|rewind; H2 compared with a fresh bar fed H2 alone; (corners) no progress, zero/unknown length, finished bars; every getter read on a frozen virtual instant; all evaluations are distinct (own PRNG stream) and non-trivial".into(),
+        rule: "four law families in rotation: (steady) 1-400 updates at an exactly constant rate of 1..9e8 steps/ms with log-uniform / tiny / fixed gaps between 1 ms and 10 days; (bounds+stall) 1-60 segments at rates spread over 12 orders of magnitude, then a stall queried at 9 instants up to 1 h; (forget) H1; reset_eta|reset|reset_elapsed|rewind; H2 compared with a fresh bar fed H2 alone; (corners) no progress, zero/unknown length, finished bars; every getter read on a frozen virtual instant; all evaluations are distinct (own PRNG stream) and non-trivial".into(),
         exhaustive: false,
     }
 }
